@@ -279,15 +279,23 @@ def case_history_material(which, kind, fam, rep):
         else:
             umat = fem.OgdenRoxburgh(fem.NeoHooke(mu=1.0, bulk=3.0), r=3.0, m=1.0, beta=0.1)
             amp = 0.2
-        body = fem.SolidBody(umat, field)
-        # committed history: one converged-like increment
-        field[0].values[:] = gen.random_displacement(rng, mesh, grad=0.6 * amp)
-        body.assemble.vector(field)
-        body.results.update_statevars()
-        # next increment (state changes), evaluated in the order Newton uses: vector, then matrix
-        field[0].values[:] = field[0].values + gen.random_displacement(rng, mesh, grad=0.6 * amp)
-        label = "SolidBody[%s,history]" % which
-        if which == "ogden-roxburgh":
+        clear = which != "ogden-roxburgh"
+        for attempt in range(8):
+            body = fem.SolidBody(umat, field)
+            # committed history: one converged-like increment
+            field[0].values[:] = gen.random_displacement(rng, mesh, grad=0.6 * amp)
+            body.assemble.vector(field)
+            body.results.update_statevars()
+            # next increment (state changes), evaluated in the order Newton uses: vector, then matrix
+            if attempt == 0:
+                field[0].values[:] = field[0].values + gen.random_displacement(rng, mesh, grad=0.6 * amp)
+            else:
+                # (further attempts of the pseudo-elastic case only: the body unloads / reloads as a whole, which keeps most points clear
+                # of the switch; sweep #14, seed 38, had every draw of the first kind with one quadrature point inside the band - the unit
+                # must not depend on the luck of the draw)
+                field[0].values[:] = [0.5, 1.6, 0.3, 2.0, 0.7, 1.35, 0.4][attempt - 1] * field[0].values + 0.1 * gen.random_displacement(rng, mesh, grad=0.6 * amp)
+            if clear:
+                break
             # the response has a kink where the strain energy passes the stored maximum (loading <-> unloading switch): such
             # points are outside the quantifier (the response is not differentiable there); a point closer to the switch than
             # the finite-difference stencil would look like a small tangent error
@@ -296,9 +304,12 @@ def case_history_material(which, kind, fam, rep):
             Wmax = np.asarray(body.results.statevars[0], float)
             # (the model also switches its softening derivative off where eta is within 1e-5 of one, i.e. z < ~3e-5)
             z = np.abs(Wmax - W) / (umat.m + umat.beta * np.maximum(Wmax, W))
-            if np.min(np.abs(W - Wmax)) < 2e-3 * max(maxabs(Wmax), maxabs(W)) or np.min(z) < 2e-4:
-                run.skip("items.tangent", "a quadrature point sits on the loading/unloading switch of the pseudo-elastic model (kink)")
-                return
+            if not (np.min(np.abs(W - Wmax)) < 2e-3 * max(maxabs(Wmax), maxabs(W)) or np.min(z) < 2e-4):
+                clear = True
+                break
+        if not clear:
+            run.skip("items.tangent", "a quadrature point sits on the loading/unloading switch of the pseudo-elastic model (kink) in all 8 draws")
+            return
         label = "SolidBody[%s,history]" % which
         evaluate(run, [body], field, label, rng, conservative=False, order=rep % 3)
         run.configs.add(str((label, kind, fam)))
